@@ -1,2 +1,114 @@
-(* C07 - placeholder while the proofs are being written *)
-From LibTw2 Require Import Base.Res Model.Huffman Gen.HuffTable.
+(* C07 - the Huffman codec is lossless, bounded and agrees with the reference.
+   Only the property theorems (about Model/Huffman.v and the regenerated
+   Gen/HuffTable.v), each closed by lemmas proved in Proofs/Huffman*.v. *)
+From LibTw2 Require Import Base.Res Model.Huffman Gen.HuffTable
+  Proofs.HuffmanBits Proofs.HuffmanCompress Proofs.HuffmanDecode Proofs.HuffmanTable.
+From Coq Require Import ZArith List Lia Bool.
+Import ListNotations.
+Open Scope Z_scope.
+
+(* the built-in table instances::TEEWORLDS, regenerated from teeworlds.rs on every run *)
+Definition teeworlds : table := of_list teeworlds_table.
+
+(* nodes[i] of the model table is the i-th node of the source file, nothing else is in it *)
+Theorem C07_builtin_table : forall i,
+  lookup teeworlds i = if i <? 0 then None else nth_error teeworlds_table (Z.to_nat i).
+Proof. intros i. apply lookup_of_list. Qed.
+
+(* the literals of lib.rs the hand-written model repeats are the ones in the source *)
+Theorem C07_consts : src_consts = model_consts.
+Proof. reflexivity. Qed.
+
+(* (1) the built-in table is a well-formed prefix code: every walk from the root ends in a
+   leaf within 24 steps, and the stored (bits, num_bits) of each of the 257 symbols is the
+   path from the root to that symbol's leaf *)
+Theorem C07_builtin_wf : wf_table teeworlds = true.
+Proof. vm_compute. reflexivity. Qed.
+
+(* (2) lossless, for every well-formed table and EVERY byte string: whatever the compressor
+   wrote (either form, any buffer it fitted into), followed by arbitrary trailing bytes,
+   decompresses to the input as soon as the output capacity holds it *)
+Theorem C07_roundtrip : forall t x bug ccap c tail cap fuel,
+  wf_table t = true -> bytes_ok x = true ->
+  compress t x bug ccap = Ok c ->
+  (length x <= cap)%nat -> (length c <= fuel)%nat ->
+  decompress fuel t (c ++ tail) cap = Ok x.
+Proof. exact roundtrip. Qed.
+
+(* ... and through the Vec API (capacities 3 * len + 3 and 8 * len): no panic, no error *)
+Theorem C07_roundtrip_vec : forall t x, wf_table t = true -> bytes_ok x = true ->
+  exists c, compress_into_vec t x = Ok c /\ decompress_into_vec t c = Ok x.
+Proof. exact vec_roundtrip. Qed.
+
+(* what the compressor writes: read back bit by bit (least significant bit first) it is the
+   code words of the input, the code word of EOF, then zero padding; it consists of bytes *)
+Theorem C07_spec : forall t x bug ccap c, wf_table t = true -> bytes_ok x = true ->
+  compress t x bug ccap = Ok c ->
+  bytes_ok c = true
+  /\ exists pad : nat, bits_of_bytes c = encode_bits t x ++ repeat false pad
+       /\ (pad < 8 \/ (bug = true /\ pad = 8))%nat.
+Proof. exact compress_bits. Qed.
+
+(* (3) the predicted lengths are exact, and they are exactly the capacity the compressor needs *)
+Theorem C07_len : forall t x (bug : bool), wf_table t = true -> bytes_ok x = true ->
+  exists n : nat,
+    (if bug then compressed_len_bug t x else compressed_len t x) = Ok (Z.of_nat n)
+    /\ (forall cap, (n <= cap)%nat -> exists c, compress t x bug cap = Ok c /\ length c = n)
+    /\ (forall cap, (cap < n)%nat -> compress t x bug cap = Err tt)
+    /\ (n <= 3 * length x + 4)%nat.
+Proof. exact len_exact. Qed.
+
+(* (4) the decoder is total on every input: dec_fuel iterations always suffice (and more change
+   nothing), it never panics, never writes more than cap bytes, and its only failure is the
+   capacity error (InvalidInput is only produced by the Vec wrapper) *)
+Theorem C07_decoder_total : forall t y cap, wf_table t = true ->
+  (forall fuel, (dec_fuel y cap <= fuel)%nat ->
+     decompress fuel t y cap = decompress (dec_fuel y cap) t y cap)
+  /\ match decompress (dec_fuel y cap) t y cap with
+     | Ok out => (length out <= cap)%nat
+     | Err e => e = Capacity
+     | Panic _ | OutOfFuel => False
+     end.
+Proof. intros t y cap Hwf. destruct (decoder_total t y cap Hwf) as [H1 H2]. split; assumption. Qed.
+
+(* (6) the built-in table is exactly what from_frequencies builds from data/frequencies *)
+Theorem C07_builtin_is_built : from_frequencies frequencies = Ok teeworlds.
+Proof. vm_compute. reflexivity. Qed.
+
+(* K07: from_frequencies panics (the push on the full 24-entry DFS stack) whenever the tree
+   is higher than 24; 256 zero frequencies are the simplest witness (a chain of height 256).
+   The full statement
+     forall f, length f = 256 -> exists t, from_frequencies f = Ok t /\ wf_table t = true
+   is therefore false for the code as it is. *)
+Theorem C07_from_frequencies_total_refuted : exists f,
+  length f = 256%nat
+  /\ forallb (fun v => (0 <=? v) && (v <=? u32_max)) f = true
+  /\ from_frequencies f = Panic site_stack_push.
+Proof. exists (repeat 0 256). vm_compute. repeat split. Qed.
+
+(* non-vacuity: the example of doc/huffman.md, an input whose bit stream is byte aligned
+   (where the reference-compatible form is one byte longer), capacity and garbage cases *)
+Example C07_nonvacuous :
+  wf_table teeworlds = true
+  /\ compress teeworlds [0; 1; 0; 2; 0; 128; 0] false 5 = Ok [177; 8; 42; 110; 0]
+  /\ compress teeworlds [0; 1; 0; 2; 0; 128; 0] false 4 = Err tt
+  /\ decompress 9 teeworlds [177; 8; 42; 110; 0; 255; 255] 7 = Ok [0; 1; 0; 2; 0; 128; 0]
+  /\ decompress 9 teeworlds [177; 8; 42; 110; 0] 6 = Err Capacity
+  /\ compress teeworlds [0] false 9 = Ok [21; 55]
+  /\ compress teeworlds [0] true 9 = Ok [21; 55; 0]
+  /\ compressed_len teeworlds [0] = Ok 2 /\ compressed_len_bug teeworlds [0] = Ok 3
+  /\ decompress (dec_fuel [255; 255] 5) teeworlds [255; 255] 5 = Err Capacity
+  /\ decompress_into_vec teeworlds [255; 255] = Err InvalidInput.
+Proof. vm_compute. repeat split. Qed.
+
+Print Assumptions C07_builtin_table.
+Print Assumptions C07_consts.
+Print Assumptions C07_builtin_wf.
+Print Assumptions C07_roundtrip.
+Print Assumptions C07_roundtrip_vec.
+Print Assumptions C07_spec.
+Print Assumptions C07_len.
+Print Assumptions C07_decoder_total.
+Print Assumptions C07_builtin_is_built.
+Print Assumptions C07_from_frequencies_total_refuted.
+Print Assumptions C07_nonvacuous.
